@@ -300,6 +300,53 @@ def _row_star_extraction(fi, selfn):
     return ex
 
 
+
+def _generator_extraction(idx, comp, selfn):
+    """Layout 4: compute returns `list(self.G())` (or a comprehension over it) where G is a generator method that scans the
+    cells with nested loops and yields the pair under `if self.marked[i][j] == 1`."""
+    rets = lib.returns_of(comp.node)
+    if len(rets) != 1:
+        return None
+    v = deref(comp, rets[0].value)
+    call = v.args[0] if is_call_to(v, 'list', 1) or is_call_to(v, 'tuple', 1) else v
+    if not (isinstance(call, ast.Call) and is_self_attr(call.func, selfn) and not call.args):
+        return None
+    ci = idx.cls(MUNKRES)
+    g = ci.methods.get(call.func.attr)
+    if g is None or not any(isinstance(n, (ast.Yield, ast.YieldFrom)) for n in walk_own(g.node)):
+        return None
+    S = g.params[0]
+    tests = [n for n in walk_own(g.node) if isinstance(n, ast.Compare) and len(n.ops) == 1 and isinstance(n.left, ast.Subscript)
+             and isinstance(n.left.value, ast.Subscript) and is_self_attr(n.left.value.value, S, 'marked')]
+    yields = [n for n in walk_own(g.node) if isinstance(n, ast.Yield)]
+    if len(tests) != 1 or len(yields) != 1 or not (isinstance(yields[0].value, ast.Tuple) and len(yields[0].value.elts) == 2
+                                                   and all(isinstance(e, ast.Name) for e in yields[0].value.elts)):
+        return None
+    ex = Extraction()
+    ex.layout = 'cells'
+    ex.fi, ex.selfn, ex.test = g, S, tests[0]
+    ex.row_idx, ex.col_idx = tests[0].left.value.slice, tests[0].left.slice
+    if not (is_name(ex.row_idx) and is_name(ex.col_idx)):
+        return None
+    ex.nest, ex.loops, ex.for_loops = [], {}, []
+    order = [a for a in ancestors(tests[0]) if isinstance(a, ast.For) and isinstance(a.target, ast.Name)]
+    for lp in reversed(order):
+        ex.nest.append((lp.target.id, lp.iter, lp))
+        ex.loops[lp.target.id] = (lp.iter, lp)
+        ex.for_loops.append(lp)
+    t = nf.canon(tests[0])
+    st = enclosing_stmt(yields[0])
+    if not any(x is tests[0] for x in (n for a in ancestors(yields[0]) if isinstance(a, ast.If) for n in ast.walk(a.test))):
+        return None
+    ex.extra = [x for x in guards_of(st, stop=g.node) if not nf.equal(x, t)]
+    ex.pair = yields[0].value
+    ex.emit_node, ex.emit_kind, ex.sink = st, 'append', None        # a generator yields in iteration order
+    ex.collection = None
+    ex.returns, ex.bad_returns = rets, []
+    ex.field_owner = comp          # original_length / original_width are assigned in compute
+    return ex
+
+
 def extraction_facts(idx):
     """Facts about the code at the end of Munkres.compute that turns starred zeros into (row, col) pairs.
 
@@ -319,6 +366,9 @@ def extraction_facts(idx):
         alt = _row_star_extraction(fi, selfn)
         if alt is not None:
             return alt
+        gen_ex = _generator_extraction(idx, fi, selfn)
+        if gen_ex is not None:
+            return gen_ex
     if len(tests) != 1:
         raise AnalysisError('Munkres.compute: expected one test of self.marked[i][j], found %d' % len(tests))
     ex = Extraction()
